@@ -47,8 +47,8 @@ def secrets_of(img):
     return out
 
 class C15(F.PropCheck):
-    pid = 'C15'; gen_groups = ['HtmlTemplates', 'C14Vars']; prop_file = 'Properties_C15'
-    IN = {'CFG': 0, 'CFGB': 1, 'NAME': 2, 'MAC': 3, 'ADD': 4, 'STATE': 5, 'RENDER': 6, 'GET': 7, 'FORMB': 8, 'FORM': 9}
+    pid = 'C15'; gen_groups = ['HtmlTemplates', 'C14Vars', 'StateSites']; prop_file = 'Properties_C15'
+    IN = {'CFG': 0, 'CFGB': 1, 'NAME': 2, 'MAC': 3, 'ADD': 4, 'STATE': 5, 'RENDER': 6, 'GET': 7, 'FORMB': 8, 'FORM': 9, 'WIFICONNECT': 10, 'WIFISTATUS': 11}
     OUT = {0: 'PAGE', 1: 'PAGEB', 2: 'GETPAGE', 3: 'FPAGE', 4: 'FPAGEB', 5: 'FCFG', 6: 'FCFGB'}
     quick_cases = 1500; thorough_cases = 4000
     trusted_extra = ['C15 driver harness/drv/c15.c + harness/wrap/c15_html_wrap.c: the two html sources of /repo compiled under all '
@@ -152,11 +152,19 @@ class C15(F.PropCheck):
         hdr = b'POST / HTTP/1.1\r\nHost: 192.168.4.1\r\nContent-Type: application/x-www-form-urlencoded\r\n\r\n'
         return hdr + b'&'.join(pa), hdr + b'&'.join(pb), mqtt
 
+    def wifi_history(self, rng):
+        """what the firmware itself writes into the last-state text: connect, then the SDK status sequence"""
+        evs = [('WIFICONNECT', [rng.choice([1, 1, 1, 0, 5])], b'')]
+        for _ in range(rng.choice([1, 1, 2, 3, 5])):
+            evs.append(('WIFISTATUS', [rng.choice([2, 2, 3, 3, 4, 5, 1, 0])], b''))
+        return evs
+
     def gen_form_case(self, rng, cid):
         a = self.gen_image(rng); b = self.flip_secrets(rng, a)
         ra, rb, mqtt = self.form_pair(rng)
         evs = [('CFG', [], a), ('CFGB', [], b), ('NAME', [], BOARD_NAME), ('MAC', [], BOARD_MAC)]
         if rng.random() < 0.3: evs.append(('STATE', [], self.rstr(rng, rng.randrange(1, 80), 0)))
+        if rng.random() < 0.4: evs += self.wifi_history(rng)
         evs += [('FORMB', [], rb), ('FORM', [], ra)]
         tags = ['saved-form:%s' % ('mqtt' if mqtt else 'supla')]
         for v in sorted(set(rng.randrange(0, 7) for _ in range(rng.choice([1, 2])))):
@@ -189,6 +197,9 @@ class C15(F.PropCheck):
             for _ in range(ns):
                 evs.append(('STATE', [], self.rstr(rng, rng.choice([1, 10, 60, 150, 298, 299, 300, 400, rng.randrange(1, 320)]), mode)))
             if ns: tags.append('state-msgs:%d' % ns)
+            if rng.random() < 0.4:
+                w = self.wifi_history(rng); evs += w; tags.append('wifi-history')
+                if rng.random() < 0.3: evs.append(('STATE', [], self.rstr(rng, rng.randrange(1, 60), mode)))
             vs = [rng.randrange(0, 7) for _ in range(rng.choice([1, 2, 3]))]
             if tier == 'thorough' and rng.random() < 0.1: vs = list(range(7))
             for v in vs:
